@@ -539,6 +539,11 @@ func mergePattern(a, b string) string {
 // Contains traverses through the registered handlers to see if
 // any of them matches the predicate test.
 func (m *Mux) Contains(test func(h Handler) bool) bool {
+	// The handler of the empty pattern is set on the root node itself, which
+	// contains only looks below.
+	if m.root.hs != nil && test(m.root.hs.Handler) {
+		return true
+	}
 	return contains(m.root, test)
 }
 
